@@ -37,8 +37,11 @@ def check_process(ctx, P, rule="shape-eval", thorough=False, digestlen=64, dslen
     r = 200 - 2 * digestlen
     bad = []
     n = 0
+    from .. import shapeconst
+    extra, big = shapeconst.around(shapeconst.usize_consts(P, fn), hi=600)
     for off in range(r):
-        for ln in lengths_for(off, r, thorough):
+        lens = set(lengths_for(off, r, thorough)) | extra | {(r - off) + x for x in extra if (r - off) + x <= 600}
+        for ln in sorted(lens):
             B = simd.TermBank()
             s0 = [B.inp("s[%d]" % i, 8) for i in range(200)]
             data = [B.inp("d[%d]" % i, 8) for i in range(ln)]
@@ -89,7 +92,7 @@ def check_process(ctx, P, rule="shape-eval", thorough=False, digestlen=64, dslen
     okall = not bad and n >= r * 8
     ctx.check(okall, rule, "sha3::Engine::process", "%d (offset, length) shapes at rate %d: each permuted state is the previous state XOR the next rate bytes, the rest is XORed in place and offset counts it" % (n, r),
               "sha3::Engine::process does not absorb the stream by XOR into the rate part block by block: (offset, length, what) %s" % bad[:3], where=fn.where(), key="%s:sha3::Engine::process" % rule)
-    if okall:
+    if okall and not big:
         ctx.subsume("absorb:sha3::Engine::process", "sha3::Engine::process is decided for every offset and the boundary lengths around one and two blocks by bounded shape evaluation (shape-eval)")
         ctx.subsume("absorb:sha3:xor", "the XOR absorption is decided by shape-eval")
     return okall
